@@ -107,20 +107,43 @@ func VerifC06Att() {
 	var qs []*q
 	pendingExpire := uint64(0) // slot whose expiry is queued on the deadliner channel (0 = none)
 
-	checkQueries := func(successfulStore bool) {
+	// After a failed multi-entry store the exact ghost is no longer maintained (what such a store leaves behind is not
+	// constrained by the property); the history continues in "weak" mode with history-based obligations only: every answer
+	// is a datum that was offered to Store under that key, all answers for a key are identical, and a successful store
+	// leaves no query for one of ITS keys waiting.
+	weak := false
+	var offered []vAtt
+	var ansHas [3][3]bool
+	var ans [3][3]vAtt
+	checkQueries := func(successfulStore bool, sa, sb vAtt) {
 		for _, x := range qs {
 			if x.done {
 				continue
 			}
 			select {
 			case d := <-x.resp:
-				vrt.Assert("a query is answered only with data stored under its key", g.has[x.slot][x.comm])
-				vrt.Assert("every answer for a key carries the first stored content", vSameKey(d, g.att[x.slot][x.comm], x.comm))
+				vrt.Assert("a query is answered only with data stored under its key", weak || g.has[x.slot][x.comm])
+				vrt.Assert("every answer for a key carries the first stored content", weak || vSameKey(d, g.att[x.slot][x.comm], x.comm))
+				prov := false
+				for _, o := range offered {
+					if o.slot == x.slot && (o.comm == x.comm || x.comm == 0) && vSame2(d, o, x.comm) {
+						prov = true
+					}
+				}
+				vrt.Assert("an answer is a datum that was offered to Store under the queried key", prov)
+				if ansHas[x.slot][x.comm] {
+					vrt.Assert("all answers ever given for a key are identical", vSame2(d, ans[x.slot][x.comm], x.comm))
+				} else {
+					ansHas[x.slot][x.comm] = true
+					ans[x.slot][x.comm] = vAtt{slot: uint64(d.Slot), comm: uint64(d.Index), head: d.BeaconBlockRoot[0], src: byte(d.Source.Epoch), tgt: byte(d.Target.Epoch)}
+				}
 				x.done = true
 				vrt.Reach("a query was answered")
 			default:
 				if successfulStore {
-					vrt.Assert("after a successful store no query whose key is present is left waiting", !g.has[x.slot][x.comm])
+					vrt.Assert("after a successful store no query whose key is present is left waiting", weak || !g.has[x.slot][x.comm])
+					mine := x.slot == sa.slot && (x.comm == sa.comm || x.comm == sb.comm || x.comm == 0)
+					vrt.Assert("a successful store leaves no query for one of its own keys waiting", !mine)
 				}
 			}
 		}
@@ -150,17 +173,24 @@ func VerifC06Att() {
 			if ok2 {
 				g.apply(second, pk2)
 			}
-			vrt.Assert("a store succeeds exactly when every entry is consistent with what is stored (conflicts are rejected)", (err == nil) == ok2)
+			vrt.Assert("a store succeeds exactly when every entry is consistent with what is stored (conflicts are rejected)", weak || (err == nil) == ok2)
+			offered = append(offered, a, b)
 			if err == nil {
 				vrt.Reach("successful store")
 			} else {
-				// what a failed multi-entry store leaves behind is not constrained by the property; stop this history here
-				vrt.Assume(false)
+				if vrt.Param("cont") == 0 {
+					vrt.Assume(false) // stop this history at the failed store
+				}
+				weak = true
+				vrt.Reach("history continues after a failed store")
 			}
 			// the real Store resolves queries first and only then trims the duties whose expiry is queued
-			checkQueries(err == nil)
+			checkQueries(err == nil, a, b)
 			if err == nil && pendingExpire != 0 {
 				g.expire(pendingExpire)
+				for c := 0; c < 3; c++ {
+					ansHas[pendingExpire][c] = false
+				}
 				pendingExpire = 0
 			}
 		case opQuery:
@@ -172,7 +202,7 @@ func VerifC06Att() {
 			db.resolveAttQueriesUnsafe()
 			db.mu.Unlock()
 			qs = append(qs, x)
-			checkQueries(true)
+			checkQueries(true, vAtt{}, vAtt{})
 		case opExpire:
 			s := uint64(vrt.Byte(vrt.N("xslot", i)))
 			vrt.Assume(s >= 1 && s <= 2 && pendingExpire == 0)
@@ -181,6 +211,11 @@ func VerifC06Att() {
 		}
 	}
 	vrt.Reach("end")
+}
+
+// vSame2: identical signed content under the queried committee key (the committee-0 alias serves whatever committee).
+func vSame2(d *eth2p0.AttestationData, a vAtt, comm uint64) bool {
+	return vSame(d, a)
 }
 
 func vEqual(a, b vAtt) bool {
